@@ -27,6 +27,38 @@ type evalModel struct {
 	DepsSite  *ssa.Call              // in Evaluate: the call to the helper (nil when the loop is in Evaluate)
 	DepDataEv ssa.Value              // the dependency-stamp map as seen in Evaluate (DepData, or a result of the helper call)
 	Helpers   []*ssa.Function        // in-package functions statically called from Evaluate (depth <= 2), excluding saveTargetInfo
+	ViaSaves  []viaSave              // record writes performed by a helper called from Evaluate
+}
+
+// viaSave: Evaluate calls a helper (Site) that writes the record (Save, inside the helper).
+type viaSave struct {
+	Site *ssa.Call
+	Save *ssa.Call
+}
+
+// recordWrites lists the record writes of Evaluate as (site in Evaluate, literal): direct saveTargetInfo calls and
+// calls of helpers that perform the write.
+func (m *evalModel) recordWrites() []struct {
+	Site *ssa.Call
+	Lit  savedLiteral
+} {
+	var out []struct {
+		Site *ssa.Call
+		Lit  savedLiteral
+	}
+	for _, s := range m.Saves {
+		out = append(out, struct {
+			Site *ssa.Call
+			Lit  savedLiteral
+		}{s, m.savedLiteral(s)})
+	}
+	for _, v := range m.ViaSaves {
+		out = append(out, struct {
+			Site *ssa.Call
+			Lit  savedLiteral
+		}{v.Site, recordOf(v.Save, v.Save.Call.Args[len(v.Save.Call.Args)-1])})
+	}
+	return out
 }
 
 func isInvoke(c ssa.CallInstruction, iface, method string) bool {
@@ -118,6 +150,18 @@ func buildEvalModel(p *core.Prog, r *core.Result, rule string) *evalModel {
 			}
 		}
 	}
+	for _, c := range core.Calls(fn) {
+		site, ok := c.(*ssa.Call)
+		cal := core.Callee(c)
+		if !ok || cal == nil || cal == save || cal.Blocks == nil || cal.Pkg != fn.Pkg {
+			continue
+		}
+		for _, c2 := range core.CallsTo(cal, save) {
+			if sv, ok := c2.(*ssa.Call); ok {
+				m.ViaSaves = append(m.ViaSaves, viaSave{Site: site, Save: sv})
+			}
+		}
+	}
 	missing := []string{}
 	if m.InfoCall == nil {
 		missing = append(missing, "Target.info()")
@@ -131,7 +175,7 @@ func buildEvalModel(p *core.Prog, r *core.Result, rule string) *evalModel {
 	if m.Evaluate == nil {
 		missing = append(missing, "Target.evaluate()")
 	}
-	if len(m.Saves) == 0 {
+	if len(m.Saves) == 0 && len(m.ViaSaves) == 0 {
 		missing = append(missing, "saveTargetInfo()")
 	}
 	if len(missing) > 0 {
@@ -245,31 +289,123 @@ func holds(p *core.Prog, at ssa.Instruction, val bool, pred func(ssa.Value) bool
 	return p.FactsAt(at).Find(func(c ssa.Value, v bool) bool { return v == val && pred(c) })
 }
 
-// savedLiteral describes the targetInfo composite literal passed to a saveTargetInfo call.
+// savedLiteral describes the targetInfo record passed to a saveTargetInfo call: a composite literal built in place,
+// the result of an in-package constructor helper (followed through its returns, parameters replaced by the caller's
+// arguments), or either of these with fields assigned afterwards.
 type savedLiteral struct {
 	Call   *ssa.Call
-	Fields map[string]ssa.Value // field name -> stored value
+	Fields map[string]ssa.Value   // field name -> stored value (a caller-side value where the helper merely forwards a parameter)
+	Via    map[string][]ssa.Value // field name -> caller arguments the helper-side value is computed from
+	Whole  []ssa.Value            // whole-record sources that are not literals or constructors (e.g. a record read from disk)
+	After  map[string]bool        // field name -> assigned on the local after (dominated by) every whole-record store to it
 }
 
 func (m *evalModel) savedLiteral(call *ssa.Call) savedLiteral {
-	sl := savedLiteral{Call: call, Fields: map[string]ssa.Value{}}
-	arg := call.Call.Args[len(call.Call.Args)-1]
-	ld, ok := arg.(*ssa.UnOp)
-	if !ok {
-		return sl
+	return recordOf(call, call.Call.Args[len(call.Call.Args)-1])
+}
+
+// recordOf resolves the record value v (an argument of call).
+func recordOf(call *ssa.Call, v ssa.Value) savedLiteral {
+	sl := savedLiteral{Call: call, Fields: map[string]ssa.Value{}, Via: map[string][]ssa.Value{}, After: map[string]bool{}}
+	var collect func(v ssa.Value, subst map[*ssa.Parameter]ssa.Value, depth int)
+	set := func(name string, val ssa.Value, subst map[*ssa.Parameter]ssa.Value) {
+		delete(sl.Via, name)
+		if prm, ok := val.(*ssa.Parameter); ok && subst != nil {
+			if a, ok := subst[prm]; ok {
+				sl.Fields[name] = a
+				return
+			}
+		}
+		sl.Fields[name] = val
+		if subst != nil {
+			for x := range core.BackwardSlice(val, core.SliceOpts{Stores: true, ThroughCall: func(c *ssa.Call) bool { return true }}) {
+				if prm, ok := x.(*ssa.Parameter); ok {
+					if a, ok := subst[prm]; ok {
+						sl.Via[name] = append(sl.Via[name], a)
+					}
+				}
+			}
+		}
 	}
-	cell := ld.X
-	core.Instrs(m.Fn, func(in ssa.Instruction) {
-		st, ok := in.(*ssa.Store)
-		if !ok {
+	seen := map[ssa.Value]bool{}
+	collect = func(v ssa.Value, subst map[*ssa.Parameter]ssa.Value, depth int) {
+		if seen[v] {
 			return
 		}
-		fa, ok := st.Addr.(*ssa.FieldAddr)
-		if !ok || fa.X != cell {
-			return
+		seen[v] = true
+		switch x := v.(type) {
+		case *ssa.UnOp:
+			if x.Op != token.MUL {
+				sl.Whole = append(sl.Whole, v)
+				return
+			}
+			cell, ok := x.X.(*ssa.Alloc)
+			if !ok {
+				sl.Whole = append(sl.Whole, v)
+				return
+			}
+			// whole-value stores first, then the fields assigned on the local
+			var wholeStores []*ssa.Store
+			for _, ref := range *cell.Referrers() {
+				if st, ok := ref.(*ssa.Store); ok && st.Addr == ssa.Value(cell) {
+					wholeStores = append(wholeStores, st)
+					collect(st.Val, subst, depth)
+				}
+			}
+			for _, ref := range *cell.Referrers() {
+				if fa, ok := ref.(*ssa.FieldAddr); ok {
+					for _, r2 := range *fa.Referrers() {
+						if st, ok := r2.(*ssa.Store); ok && st.Addr == ssa.Value(fa) {
+							_, name := core.FieldOf(fa)
+							set(name, st.Val, subst)
+							after := true
+							for _, ws := range wholeStores {
+								if !core.Dominates(ws, st) {
+									after = false
+								}
+							}
+							sl.After[name] = after && depth == 0
+						}
+					}
+				}
+			}
+		case *ssa.Call:
+			cal := core.Callee(x)
+			if cal == nil || cal.Blocks == nil || depth >= 2 || call == nil || cal.Pkg != call.Parent().Pkg {
+				sl.Whole = append(sl.Whole, v)
+				return
+			}
+			sub := map[*ssa.Parameter]ssa.Value{}
+			for i, prm := range cal.Params {
+				if i < len(x.Call.Args) {
+					a := x.Call.Args[i]
+					if ap, ok := a.(*ssa.Parameter); ok && subst != nil {
+						if aa, ok := subst[ap]; ok {
+							a = aa
+						}
+					}
+					sub[prm] = a
+				}
+			}
+			isCtor := false
+			for _, ret := range core.ReturnsOf(cal) {
+				rv := ret.Results
+				if len(rv) == 1 {
+					if ld, ok := rv[0].(*ssa.UnOp); ok && ld.Op == token.MUL {
+						if _, ok := ld.X.(*ssa.Alloc); ok {
+							isCtor = true
+							collect(rv[0], sub, depth+1)
+						}
+					}
+				}
+			}
+			if !isCtor {
+				sl.Whole = append(sl.Whole, v)
+			}
+		default:
+			sl.Whole = append(sl.Whole, v)
 		}
-		_, name := core.FieldOf(fa)
-		sl.Fields[name] = st.Val
-	})
+	}
+	collect(v, nil, 0)
 	return sl
 }
